@@ -9,7 +9,7 @@ CFG = {
         {"mod": "extras", "component": "statsconc", "driver": "stats",
          "n": {"quick": 24, "thorough": 240}},
         {"mod": "extras", "component": "statslive", "driver": "stats",
-         "n": {"quick": 5, "thorough": 30}},
+         "n": {"quick": 9, "thorough": 36}},
     ],
     "rule": "stats: histories of 8-70 operations on a fresh server (random secret): direct LogTraffic/LogOnlineState calls and "
             "requests through the real http.Handler (recorder; 1 in 6 well-formed ones over a real TCP httptest.Server) - GET /traffic "
@@ -21,7 +21,9 @@ CFG = {
             "1-4 pollers half of them clearing, 0-4 kickers, or connections going online/offline around a barrier), modes mix / noclear "
             "/ storm / census / mixnet (real TCP server). statslive: one case = a real core/server (TrafficLogger = the real stats server) "
             "with 2-6 real core/client clients over loopback UDP plus one rejected auth, one raw HTTP/3 connection sending 2-3 auth requests "
-            "at once while the authenticator blocks (then one more), ended by client Close / server Close / kick + refused "
+            "at once while the authenticator blocks (then one more), a kicked single-connection user whose next report is an upstream UDP datagram / a downstream UDP reply / a TCP chunk "
+            "client->target / a TCP chunk target->client (refused once, not counted, connection closed by the server, listing drops and stays, "
+            "reconnect accepted and accounted exactly); ended by client Close / server Close / kick + refused "
             "relay chunk / silent client (4 s idle timeout, one of them silent while a slow authenticator is still deciding); GET /online must "
             "equal the connected authenticated clients at every quiescent point.",
     "trusted_base": [
@@ -37,7 +39,8 @@ CFG = {
         "statslive (concurrent auth requests on one connection, client close, server close, kick, idle timeout, slow authenticator with "
         "the client gone first) - a handful of schedules, wall-clock deadlines (3-9 s) decide 'eventually' - and by two facts recomputed "
         "from core/server's AST: test/Authenticate/commit/LogOnlineState(true) sit in one authMutex region of ServeHTTP (atomicity of the "
-        "model's authReq step), and LogOnlineState has exactly the two call sites the model has",
+        "model's authReq step), LogOnlineState has exactly the two call sites the model has, and every LogTraffic call site of core/server either closes the "
+        "connection on refusal or hands the verdict to the relay, which is given tcpTrafficLogger (closes)",
         "OnlineMap values are Go int (64-bit): more than 2^63 simultaneous connections of one id are not modelled",
     ],
     "assumptions": [
